@@ -209,8 +209,8 @@ def justify(S: SPMD, f: Func, site: ast.Call, atom: ast.expr, pol: bool, via: st
                     ok = False
             if ok:
                 return 'J2'
-    # J3 (GPT): `if get_rank() != self.primary_rank: return` before a reduction on the DP group
-    if via == 'return' and isinstance(atom, ast.Compare) and len(atom.ops) == 1 and isinstance(atom.ops[0], ast.Eq) and pol:
+    # J3 (GPT): `if get_rank() != self.primary_rank: return` before / `if get_rank() == self.primary_rank:` around a reduction on the DP group
+    if via in ('return', 'if') and isinstance(atom, ast.Compare) and len(atom.ops) == 1 and isinstance(atom.ops[0], ast.Eq) and pol:
         sides = [atom.left, atom.comparators[0]]
         texts = {norm(s) for s in sides}
         is_rank = any(isinstance(s, ast.Call) and any(t.kind == 'func' and t.ref.qualname == 'kfac.distributed.get_rank' for t in p.resolve_call(f, s)) and not s.args for s in sides)
